@@ -3,7 +3,10 @@
  * coap_socket_read(); what the protocol layer receives is logged.
  *
  * usage: drv_stream <cases.txt> <out.ndjson>
- *   X id=<n> max=<csm max message size, 0 = default>
+ *   X id=<n> max=<csm max message size, 0 = default> edge=<0|1>
+ *        edge=1: readiness is signalled once per arriving chunk (until the first read after its arrival), the way a
+ *        TLS layer underneath behaves: the record is decrypted by the first read and the rest sits in the TLS
+ *        library's buffer, the socket does not become readable again for it
  *   K <bid> <len>        declare a pattern blob (abbreviated as a run in the trace)
  *   S <hex>              append bytes to the stream
  *   P <bid> <len>        append the pattern blob bytes to the stream
@@ -23,11 +26,12 @@ static coap_context_t *ctx;
 static coap_endpoint_t *ep;
 static coap_session_t *sess;
 static uint8_t *stream;
-static size_t slen, scap, spos;
+static size_t slen, scap, spos, arrived;
 static size_t chunks[4096];
 static int nchunks, curchunk;
 static size_t chunk_left;
 static int chunk_open, accepted, closed, cfd = -1;
+static int edge, signalled_read;     /* edge mode: a read has been made since the last arrival */
 static struct { int bid; size_t len; } blobs[32];
 static int nblobs;
 
@@ -64,14 +68,13 @@ ssize_t __wrap_coap_socket_read(coap_socket_t *sock, uint8_t *data, size_t data_
     sock->flags &= ~COAP_SOCKET_CAN_READ;
     return 0;
   }
+  signalled_read = 1;
   n = chunk_left < data_len ? chunk_left : data_len;
   memcpy(data, stream + spos, n);
   spos += n;
   chunk_left -= n;
-  if (chunk_left == 0) {
+  if (chunk_left == 0)
     chunk_open = 0;
-    curchunk++;
-  }
   if (n < data_len)
     sock->flags &= ~COAP_SOCKET_CAN_READ;
   return (ssize_t)n;
@@ -94,7 +97,7 @@ static int extra_events(int epfd, struct epoll_event *events, int max) {
     n++;
     return n;
   }
-  if (sess && !closed && chunk_open && (sess->sock.flags & COAP_SOCKET_WANT_READ)) {
+  if (sess && !closed && chunk_open && (sess->sock.flags & COAP_SOCKET_WANT_READ) && !(edge && signalled_read)) {
     events[n].events = EPOLLIN;
     events[n].data.ptr = &sess->sock;
     n++;
@@ -157,7 +160,7 @@ static void run_case(int id, int max) {
   sim_add_node(ctx);
   accepted = closed = 0;
   sess = NULL;
-  curchunk = 0; spos = 0; chunk_open = 0;
+  curchunk = 0; spos = 0; arrived = 0; chunk_open = 0; chunk_left = 0; signalled_read = 0;
   /* a real connection so that the library's accept() succeeds */
   cfd = socket(AF_INET, SOCK_STREAM, 0);
   memset(&sa, 0, sizeof(sa));
@@ -174,24 +177,29 @@ static void run_case(int id, int max) {
   sim_round();                       /* accept */
   /* offer the chunks one per scheduler round */
   for (;;) {
-    size_t rest = slen - spos, c;
+    size_t rest = slen - arrived, c;
     int guard = 0;
     if (closed || !sess) break;
     if (curchunk < nchunks) c = chunks[curchunk] < rest ? chunks[curchunk] : rest;
     else if (rest) c = rest;
     else break;
     if (c == 0 && curchunk >= nchunks) break;
-    chunk_left = c;
+    arrived += c;
+    chunk_left += c;                  /* edge mode: bytes the library left unread earlier are still there */
     chunk_open = 1;
-    if (c == 0) {
+    signalled_read = 0;
+    if (chunk_left == 0) {
       /* a wake-up with nothing to read */
-      int cc = curchunk;
       sim_round();
-      if (curchunk == cc) { chunk_open = 0; curchunk++; }
+      chunk_open = 0;
     } else {
-      int cc = curchunk;
-      while (curchunk == cc && !closed && guard++ < 100000) sim_round();
+      while (chunk_left > 0 && !closed && guard++ < 100000) {
+        size_t before = spos;
+        sim_round();
+        if (edge && signalled_read && spos == before) break;    /* nothing more will be signalled for this arrival */
+      }
     }
+    curchunk++;
   }
   sim_round();
   fprintf(sim_trace, "{\"e\":\"End\",\"consumed\":%zu,\"closed\":%d}\n", spos, closed);
@@ -224,6 +232,8 @@ int main(int argc, char **argv) {
       id = p ? atoi(p + 3) : 0;
       p = strstr(line, "max=");
       max = p ? atoi(p + 4) : 0;
+      p = strstr(line, "edge=");
+      edge = p ? atoi(p + 5) : 0;
       slen = 0; nchunks = 0; nblobs = 0;
       sim_reset(1000);
     } else if (line[0] == 'K') {
